@@ -211,8 +211,7 @@ def run(rng: Rng, tier: str, index: int) -> RunResult:
         return res
     W.COMPANION = None
     if form == "compact" and isinstance(A.ser, str):
-        W.COMPANION = A.ser
-        live_entries.append("extract-interleaved")
+        W.COMPANION = A.ser      # the original of the token under attack is parsed between extract and validate
 
     other_algs = [a for a in W.SIGN_ALGS]
     stride = 1
